@@ -187,3 +187,39 @@ def rsfacts(crate):
             raise SystemExit("rsfacts: fact file for crate %s missing" % crate)
         _rs_cache[p] = Facts(p)
     return _rs_cache[p]
+
+
+# ---------------------------------------------------------------------------------------------
+# E4: compile-fail witnesses
+# ---------------------------------------------------------------------------------------------
+def witnesses():
+    """Compiles (never runs) the doc-tests of engines/witness against REPO's binding crate with the
+    nightly toolchain.  Returns {doctest title: 'ok'|'FAILED'} and the raw output.  Results are
+    cached by the content hash of everything the binding crate is built from."""
+    import json
+    src = os.path.join(HERE, "witness", "src", "lib.rs")
+    hsh = tree_hash([REPO + "/lib", src, REPO + "/Cargo.lock"], exts={".rs", ".toml", ".c", ".h", ".lock"})
+    cache = os.path.join(CACHE, "witness", hsh + ".json")
+    if os.path.exists(cache):
+        return json.load(open(cache))
+    wdir = os.path.join(CACHE, "witness", "crate")
+    os.makedirs(os.path.join(wdir, "src"), exist_ok=True)
+    import shutil
+    shutil.copy(src, os.path.join(wdir, "src", "lib.rs"))
+    with open(os.path.join(wdir, "Cargo.toml"), "w") as f:
+        f.write('[package]\nname = "ts-verif-witness"\nversion = "0.0.0"\nedition = "2021"\n\n[lib]\npath = "src/lib.rs"\n\n'
+                '[dependencies]\ntree-sitter = { path = "%s/lib" }\n\n[workspace]\n' % REPO)
+    shutil.copy(REPO + "/Cargo.lock", os.path.join(wdir, "Cargo.lock"))
+    env = dict(os.environ, CARGO_NET_OFFLINE="true", CARGO_TARGET_DIR=os.environ.get("VERIF_WITNESS_TARGET", os.path.join(CACHE, "witness-target")))
+    r = subprocess.run(["cargo", "+nightly", "test", "--doc", "--offline"], cwd=wdir, env=env, stdout=subprocess.PIPE, stderr=subprocess.STDOUT, text=True)
+    res = {}
+    for line in r.stdout.splitlines():
+        m = re.match(r"test src/lib.rs - (\S+) \(line (\d+)\)( - compile fail| - compile)? \.\.\. (ok|FAILED)", line)
+        if m:
+            kind = "compile_fail" if "fail" in (m.group(3) or "") else "twin"
+            res["%s:%s" % (m.group(1), kind)] = m.group(4)
+    out = {"results": res, "exit": r.returncode, "tail": r.stdout[-3000:]}
+    if res:
+        os.makedirs(os.path.dirname(cache), exist_ok=True)
+        json.dump(out, open(cache, "w"))
+    return out
